@@ -119,3 +119,18 @@ Proof.
   exact (honest_transfer_completes toy_H toy_json T_HDR T_R T_HASH 24 T_WIT toy_parse toy_end toy_noprefix toy_short
            eq_refl Hn Hacc Hlen eq_refl None 3 toy_c0 _ toy_start Hok eq_refl).
 Qed.
+
+(* ------------------------------------------------------------------ KNOWN FINDING race-length-poison, in the model:
+   the blob (24 bytes) is requested by hash only; a peer announces length 25 and closes; the announced length stays in
+   the blob; the honest peer asked next (same blob: known length = what the first download left) is REFUSED *)
+Definition T_LIAR : bytes := bs "{""incoming_blob"": {""blob_hash"": ""h"", ""length"": 25}}".
+Definition T_RL : response := mkResp (AvSingle T_HASH) PrAccepted (BrIncoming (Some T_HASH) (LInt 25)).
+Definition toy_json2 (s : bytes) : jres :=
+  if bytes_eqb s T_LIAR then JResp T_RL else toy_json s.
+Definition poisoned : client := run toy_H toy_json2 toy_c0 [EvData T_LIAR; EvDrain; EvLost; EvDrain].
+
+Lemma length_poison_refuted_instance :
+  c_phase poisoned = PhDone DlCancelled /\ c_verified poisoned = None /\ c_len poisoned = Some 25 /\
+  let retry := drain (run toy_H toy_json2 (request T_HASH (c_len poisoned) poisoned) [EvData T_HDR; EvDrain; EvData T_WIT]) in
+  c_phase retry = PhDone (DlClosed 0) /\ c_verified retry = None /\ c_open retry = false.
+Proof. vm_compute. repeat split; reflexivity. Qed.
